@@ -225,8 +225,10 @@ def walk_no_nested(node: ast.AST) -> Iterator[ast.AST]:
 # the program model
 # ----------------------------------------------------------------------------
 class PM:
-    def __init__(self, repo: str | None = None):
+    def __init__(self, repo: str | None = None, normalise: bool = True):
         self.repo = repo or REPO
+        self.normalise = normalise
+        self.normalised: dict[str, int] = {}
         self.root = os.path.join(self.repo, PKG)
         if not os.path.isdir(self.root):
             raise AnalysisError(f"package directory {self.root} not found")
@@ -257,6 +259,12 @@ class PM:
                     tree = ast.parse(src, filename=path)
                 except (SyntaxError, OSError, UnicodeDecodeError) as e:
                     raise AnalysisError(f"cannot parse {rel}: {e}")
+                if self.normalise:
+                    from .normalize import normalise
+
+                    tree, stats = normalise(tree)
+                    for k, v in stats.items():
+                        self.normalised[k] = self.normalised.get(k, 0) + v
                 self.modules[name] = ModuleInfo(name, path, rel, tree, src, is_pkg)
                 self.modules[name].pm = self
         if len(self.modules) < 40:
